@@ -5,13 +5,15 @@ CONSTANTS
   NS = {2, 3, 4}
   Lims = {0, 1, 2}
   NodeCounts = {2}
-  LockKeys = {"owner"}
-  Variants = {}
+  Variants = {"none"}
+  Shape = "free"
   MaxReRel = 2
-  Slacks = {1}
+  Slacks = {1, 2}
+  Listers = 1
   FixedKinds = {"conncap", "maplimit", "maplive", "codequota", "mapquota"}
   WithRelease = TRUE
   Emit = FALSE
+  EmitMaxN = 4
   EmitAll = FALSE
 INIT Init
 NEXT Next
